@@ -39,6 +39,8 @@ structure DSt where
   progP : Bool := false     -- P's program was declared by a `thread` line (not only used by `call` lines)
   progC : Bool := false
   dead : Bool := false
+  pDoomed : Bool := false   -- specification-side bookkeeping (Spec.Ring.doomed): the producer was parked or between two
+                            -- calls in a state with `done` set — its current and later ring calls must not succeed
 
 def DSt.init : DSt := {}
 
@@ -293,7 +295,32 @@ def callLine (d : DSt) (t : Tid) (c : Call) : DSt × String :=
         | none => (0, 0)
       ({ d' with dead := true }, s!"hang {name}:{n}:{h}@d{b01 d'.s.sh.done}")
 
-def specLine (d : DSt) : String := s!"inv {d.cfg.size}"
+/-- what the stepping thread's call waits for, if it is a consumer wait (`Spec.Ring.eofOk`) -/
+def waitNeed (th : Th) : Option Nat :=
+  match curCall th with
+  | some (.read _) => some 1
+  | some (.peek _) => some 1
+  | some (.rwait n) => some n
+  | _ => none
+
+/-- the specification's line for a step / call of thread `t`, from the state BEFORE it: the ring size, what a consumer
+wait of that thread waits for, and whether a producer call of that thread is doomed -/
+def specLine (d : DSt) (t : Tid) : String :=
+  let need := match d.s.getTh t with
+    | some th => match waitNeed th with
+      | some n => toString n
+      | none => "-"
+    | none => "-"
+  let dm := match t with
+    | .p => b01 d.pDoomed
+    | _ => "0"
+  s!"inv {d.cfg.size} need={need} doomed={dm}"
+
+/-- bookkeeping after a line: has the producer been seen parked or between two calls on a closed ring -/
+def markDoomed (d : DSt) : DSt :=
+  let blockedOrLater := d.hasP && (d.s.P.pc.parkedAt.isSome || d.s.P.pc == .idle)
+  let dm := Mqtt.Spec.Ring.doomed d.pDoomed d.s.sh.done blockedOrLater
+  { d with pDoomed := dm }
 
 /-- one line → (state, model output, spec output) -/
 def handle (d : DSt) (ws : List String) : DSt × String × String :=
@@ -322,13 +349,17 @@ def handle (d : DSt) (ws : List String) : DSt × String × String :=
       | _, _ => (d, "bad-op", "bad-op")
     | ["step", t] =>
       match parseTid t with
-      | some t => let (d', l) := stepLine d t; (d', l, specLine d)
+      | some t => let (d', l) := stepLine d t; (markDoomed d', l, specLine d t)
       | none => (d, "bad-op", "bad-op")
     | ["call", t, c] =>
       match parseTid t, parseCall c with
       | some t, some c =>
         if !(allowed t c) || (match t with | .k _ => true | _ => false) then (d, "bad-op", "bad-op") else
-        let (d', l) := callLine d t c; (d', l, specLine d)
+        let s0 := match d.s.getTh t with
+          | some th => if th.pc == .idle then d.s.setTh t { th with prog := c :: th.prog } else d.s
+          | none => d.s
+        let d0 := { d with s := s0 }
+        let (d', l) := callLine d t c; (markDoomed d', l, specLine d0 t)
       | _, _ => (d, "bad-op", "bad-op")
     | ["finish"] => let (d', l) := finishLine d; ({ d' with dead := true }, l, s!"fin ok {d.cfg.size}")
     | ["pipe", total, _chunk] =>
